@@ -424,15 +424,17 @@ impl VersionManager {
             let current_min = self.min_version.load(Ordering::Acquire);
             let version = self.current_version.fetch_add(1, Ordering::AcqRel) + 1;
 
+            // Count the token while its version is assigned: try_advance_min_version runs under
+            // the same mutex and must never observe a version that is assigned but not yet counted
+            self.active_readers.fetch_add(1, Ordering::Relaxed);
+
             (version, current_min)
         } else {
             // Single-threaded modes don't need version tracking
+            self.active_readers.fetch_add(1, Ordering::Relaxed);
             (1, 1)
         };
 
-        verif_point!("vs.r.pre_inc", self as *const Self, version);
-        // Increment active reader count
-        self.active_readers.fetch_add(1, Ordering::Relaxed);
         verif_point!("vs.r.acquired", self as *const Self, version);
 
         // Update statistics
@@ -467,35 +469,49 @@ impl VersionManager {
 
         let start_time = Instant::now();
 
-        // For OneWriteMultiRead, ensure no other writers are active
+        // For OneWriteMultiRead, claim the single writer slot atomically: a load followed by a later
+        // increment let two threads both observe zero writers
+        let mut claimed = false;
         if self.concurrency_level == ConcurrencyLevel::OneWriteMultiRead {
             verif_point!("vs.w.check", self as *const Self);
-            let current_writers = self.active_writers.load(Ordering::Acquire);
-            if current_writers > 0 {
+            if self
+                .active_writers
+                .compare_exchange(0, 1, Ordering::AcqRel, Ordering::Acquire)
+                .is_err()
+            {
                 return Err(ZiporaError::resource_busy(
                     "Another writer is already active in OneWriteMultiRead mode",
                 ));
             }
+            claimed = true;
         }
         verif_point!("vs.w.checked", self as *const Self);
 
         // Acquire version under lock for synchronized levels
         let (version, min_version) = if self.concurrency_level.requires_synchronization() {
             let _lock = self.token_chain_mutex.lock().map_err(|_| {
+                if claimed {
+                    self.active_writers.fetch_sub(1, Ordering::Relaxed);
+                }
                 ZiporaError::system_error("Failed to acquire token chain mutex for writer")
             })?;
 
             let current_min = self.min_version.load(Ordering::Acquire);
             let version = self.current_version.fetch_add(1, Ordering::AcqRel) + 1;
 
+            // Count the token while its version is assigned (see acquire_reader_token)
+            if !claimed {
+                self.active_writers.fetch_add(1, Ordering::Relaxed);
+            }
+
             (version, current_min)
         } else {
+            if !claimed {
+                self.active_writers.fetch_add(1, Ordering::Relaxed);
+            }
             (1, 1)
         };
 
-        verif_point!("vs.w.pre_inc", self as *const Self, version);
-        // Increment active writer count
-        self.active_writers.fetch_add(1, Ordering::Relaxed);
         verif_point!("vs.w.acquired", self as *const Self, version);
 
         // Update statistics
@@ -554,12 +570,16 @@ impl VersionManager {
     /// track individual token versions in a linked list.
     fn try_advance_min_version(&self) {
         verif_point!("vs.adv.check", self as *const Self);
+        // Serialise with version assignment: tokens are counted under this mutex, so when both
+        // counters read zero here no token with a version below current_version can exist
+        let _lock = match self.token_chain_mutex.lock() {
+            Ok(lock) => lock,
+            Err(_) => return,
+        };
         if self.active_readers.load(Ordering::Relaxed) == 0
             && self.active_writers.load(Ordering::Relaxed) == 0
         {
-            verif_point!("vs.adv.load_cur", self as *const Self);
             let current = self.current_version.load(Ordering::Acquire);
-            verif_point!("vs.adv.store", self as *const Self, current);
             self.min_version.store(current, Ordering::Release);
         }
     }
